@@ -15,8 +15,11 @@ class Item:
     mode: F (functional VC) | S (safety VC) | E (effect/frame) | T (termination) | table | bounded"""
 
     def __init__(self, name, verdict, backend, time_s, where="", detail="", mode="", func="", counts=True,
-                 witness=None, confirmed=None):
+                 witness=None, confirmed=None, shape=False):
         self.name = name
+        # a shape obligation says "the code still has the form the argument was made for": when it fails without a
+        # failing input, the contract has lost its binding (undecided), which is not evidence of a violation
+        self.shape = shape or str(backend).startswith("structural")
         self.verdict = verdict
         self.backend = backend
         self.time_s = time_s
